@@ -96,6 +96,12 @@ def ncf2lateral_boundary(ncffile, outpath):
         time_hdr['etime'] = time + 1.
         time_hdr['iedate'] += (time_hdr['etime'] // 24).astype('i')
         time_hdr['etime'] -= (time_hdr['etime'] // 24) * 24
+        # roll YYJJJ into the next year past day 365/366
+        date_e = time_hdr['iedate']
+        ylen = np.where(date_e // 1000 % 4 == 0, 366, 365)
+        time_hdr['iedate'] = np.where(
+            date_e % 1000 > ylen,
+            (date_e // 1000 + 1) % 100 * 1000 + date_e % 1000 - ylen, date_e)
     emiss_hdr['ibdate'] = time_hdr['ibdate'][0]
     emiss_hdr['btime'] = time_hdr['btime'][0]
     emiss_hdr['iedate'] = time_hdr['iedate'][-1]
